@@ -21,8 +21,25 @@ void stack_poison(uint8_t pattern, size_t bytes) {
   __asm__ volatile("" ::"r"(buf) : "memory");
 }
 
+static const bytes& fixed_entropy() {
+  static const bytes b = Rng(0x65787472615f726eULL).take(4096);
+  return b;
+}
+void default_entropy(SimEnv* e) {
+  if (!G.extra_randomness)
+    return;
+  e->rng_buf = fixed_entropy().data();
+  e->rng_len = fixed_entropy().size();
+  e->rng_pos = 0;
+}
+bytes extra_randomness_bytes(const model::Params& p) {
+  if (!G.extra_randomness || p.kkw)
+    return {};
+  return bytes(fixed_entropy().begin(), fixed_entropy().begin() + 2 * p.seed);
+}
 void configure_env(TaskCtx& t, const Case& c) {
   sim_env_reset(&t.env, t.task);
+  default_entropy(&t.env);
   std::string node = G.node_override.empty() ? c.s("node", "avx2") : G.node_override;
   t.env.caps_mask = caps_for_node(node);
   if (G.solo_pass)
@@ -281,7 +298,8 @@ const bytes& model_signature(const model::Key& k, const bytes& msg, model::Trace
     }
   }
   model::Trace t;
-  bytes s = model::sign(*model::params(k.param), k.sk, k.C, k.pt, msg, &t);
+  bytes xr = extra_randomness_bytes(*model::params(k.param));
+  bytes s = model::sign(*model::params(k.param), k.sk, k.C, k.pt, msg, &t, nullptr, &xr);
   std::lock_guard<std::mutex> lk(cache_mu);
   if (model_cache.size() > 256) {
     model_cache.clear();
